@@ -234,7 +234,7 @@ def reference(recipe, data, init, op):
     if kind == 'flatten_fn':
         levels = recipe['levels']
         if levels == 0:
-            return data
+            return list(it) if recipe['subspec'] == 'listspec' else data      # what the spec fetches, untouched
         cur = it
         for _ in range(levels - 1):
             cur = itertools.chain.from_iterable(cur)
@@ -353,8 +353,12 @@ def check(recipe, ctx):
                            % (where, exp[1], type(got[1]).__name__, got[1]))
         e, g = exp[1], got[1]
         if kind == 'flatten_fn' and recipe['levels'] == 0:
-            if g is not target and recipe['subspec'] != 'listspec':
-                raise Mismatch('levels-0', '%s: levels=0 must return the target itself' % where)
+            # zero levels of flattening: the fetched value itself (glom(target, spec)), untouched
+            if g is not data and recipe['subspec'] != 'listspec':
+                raise Mismatch('levels-0', '%s: levels=0 must return the value the spec fetches (here the object %r itself), got %r'
+                               % (where, data, g))
+            if recipe['subspec'] == 'listspec' and (type(e) is not type(g) or e != g):
+                raise Mismatch('levels-0', '%s: levels=0 must return what the spec fetches: expected %r, got %r' % (where, e, g))
         else:
             if type(e) is not type(g) or e != g or (isinstance(e, dict) and list(e.items()) != list(g.items())):
                 raise Mismatch('wrong-value', '%s: expected %r (%s), got %r (%s)'
